@@ -21,6 +21,8 @@ import (
 	"github.com/daeuniverse/dae/common/consts"
 	"github.com/daeuniverse/dae/component/outbound"
 	"github.com/daeuniverse/dae/component/outbound/dialer"
+	"github.com/daeuniverse/dae/config"
+	"github.com/daeuniverse/dae/pkg/config_parser"
 	D "github.com/daeuniverse/outbound/dialer"
 	"github.com/daeuniverse/outbound/netproxy"
 	"github.com/sirupsen/logrus"
@@ -107,6 +109,19 @@ func c16kChanged(m *ebpf.Map) string {
 		return "unchanged"
 	}
 	return strings.Join(out, " ")
+}
+
+func c16kSlots(m *ebpf.Map, ob int) string {
+	var sb strings.Builder
+	for j := 0; j < 6; j++ {
+		var v uint32
+		if err := m.Lookup(uint32(ob*6+j), &v); err != nil || v > 9 {
+			sb.WriteByte('?')
+		} else {
+			sb.WriteByte(byte('0' + v))
+		}
+	}
+	return sb.String()
 }
 
 func c16kBool(b bool) string {
@@ -220,6 +235,20 @@ func TestVerifC16Kernel(t *testing.T) {
 		var groups []*c16kGroup // every group ever created
 		var curNodes []*c16kNode
 		var curGroups []*c16kGroup
+		var drainNodes []*c16kNode // nodes of a previous generation: it keeps reporting while it drains
+		// one core per generation on the SAME map; namesake groups of successive generations get the same
+		// outbound id (production: the position in the config); dial_mode != ip = dry-run closures
+		dryrun := r.Chance(0.25)
+		genCores := []*controlPlaneCore{}
+		newCore := func() int {
+			cc, _ := c16kCoreOn(m)
+			genCores = append(genCores, cc)
+			return len(genCores) - 1
+		}
+		curCore := newCore()
+		if dryrun {
+			stats.Inc("scenario.dryrun")
+		}
 		// impl answer: alive flags of all nodes, Len() of every set, kernel bits
 		state := func() string {
 			var sb strings.Builder
@@ -258,7 +287,15 @@ func TestVerifC16Kernel(t *testing.T) {
 					}
 				}
 			}
-			fmt.Fprintf(&sb, "] K[%s]", kb.String())
+			fmt.Fprintf(&sb, "] K[%s] M[", kb.String())
+			// the six slots of every group's outbound id in the REAL map (fixed-policy groups included)
+			for i, g := range groups {
+				if i > 0 {
+					sb.WriteByte(';')
+				}
+				sb.WriteString(c16kSlots(m, g.ob))
+			}
+			sb.WriteString("]")
 			return sb.String()
 		}
 		addNode := func(addr int, nameId int) *c16kNode {
@@ -279,10 +316,10 @@ func TestVerifC16Kernel(t *testing.T) {
 		addGroup := func(members []*c16kNode, pol string, nameId int) *c16kGroup {
 			g := &c16kGroup{id: len(groups), pol: pol, nameId: nameId, members: members}
 			// outbound ids over the whole uint8 range (the key base must not be computed in uint8)
-			g.ob = (2 + g.id*47) % 254 // distinct per group, spread over the whole uint8 range
 			if nameId < 0 {
 				g.nameId = g.id
 			}
+			g.ob = (2 + g.nameId*47) % 254 // by NAME: shared with the namesake of the other generation; whole uint8 range
 			ds := make([]*dialer.Dialer, len(members))
 			ans := make([]*dialer.Annotation, len(members))
 			var ms []string
@@ -292,12 +329,13 @@ func TestVerifC16Kernel(t *testing.T) {
 				ms = append(ms, fmt.Sprintf("%d:0", mm.id))
 			}
 			g.g = outbound.NewDialerGroup(opt, fmt.Sprintf("g%d", g.nameId), ds, ans,
-				outbound.DialerSelectionPolicy{Policy: pols[g.pol]}, core.outboundAliveChangeCallback(uint8(g.ob), false))
+				outbound.DialerSelectionPolicy{Policy: pols[g.pol]}, genCores[curCore].outboundAliveChangeCallback(uint8(g.ob), dryrun))
 			groups = append(groups, g)
 			mstr := "-"
 			if len(ms) > 0 {
 				mstr = strings.Join(ms, ",")
 			}
+			st.Emit(fmt.Sprintf("wire %d %d %d %s", g.id, curCore, g.ob, c16kBool(dryrun)), "ok")
 			st.Emit(fmt.Sprintf("group %d %d %s 0 %s |", g.id, g.ob, g.pol, mstr), state())
 			stats.Inc("group." + g.pol)
 			return g
@@ -350,6 +388,8 @@ func TestVerifC16Kernel(t *testing.T) {
 		// the reload: a new generation built from the current one, then the real method
 		reload := func() {
 			oldNodes, oldGroups := curNodes, curGroups
+			oldCore := curCore
+			curCore = newCore()
 			var newNodes []*c16kNode
 			newOf := map[*c16kNode]*c16kNode{}
 			for _, o := range oldNodes {
@@ -454,7 +494,7 @@ func TestVerifC16Kernel(t *testing.T) {
 			for i, g := range newGroups {
 				ng[i] = g.g
 			}
-			oldCP := &ControlPlane{controlPlaneGenerationState: controlPlaneGenerationState{outbounds: og}}
+			oldCP := &ControlPlane{core: genCores[oldCore], controlPlaneGenerationState: controlPlaneGenerationState{outbounds: og}}
 			newCP := &ControlPlane{controlPlaneGenerationState: controlPlaneGenerationState{outbounds: ng}}
 			overlap := newCP.InheritDialerHealthFrom(oldCP)
 			st.Emit("handover "+strings.Join(toks, " ")+" |", state())
@@ -463,12 +503,36 @@ func TestVerifC16Kernel(t *testing.T) {
 				stats.Inc("reload.overlap")
 			}
 			curNodes, curGroups = newNodes, newGroups
+			drainNodes = oldNodes
+			// the old generation is still live for a moment (its reports reach the shared map) ...
+			for k := r.Intn(3); k > 0 && len(oldNodes) > 0; k-- {
+				o := oldNodes[r.Intn(len(oldNodes))]
+				tok := c16kAll[r.Intn(len(c16kAll))]
+				if r.Bool() {
+					o.d.ReportUnavailableForced(c16kNT(tok), nil)
+					st.Emit(fmt.Sprintf("forced %d %s |", o.id, tok), state())
+				} else {
+					o.d.ReportAvailableTraffic(c16kNT(tok))
+					st.Emit(fmt.Sprintf("tok %d %s |", o.id, tok), state())
+				}
+				stats.Inc("old_gen_report_before_retire")
+			}
+			// ... until the real MarkRetired
+			if r.Chance(0.85) {
+				oldCP.MarkRetired()
+				st.Emit(fmt.Sprintf("silence %d", oldCore), state())
+				stats.Inc("retired")
+			}
 		}
 		for ev := 0; ev < 70; ev++ {
 			if len(curNodes) == 0 {
 				break
 			}
 			n := curNodes[r.Intn(len(curNodes))]
+			if len(drainNodes) > 0 && r.Chance(0.25) {
+				n = drainNodes[r.Intn(len(drainNodes))] // a draining generation still probes / carries traffic
+				stats.Inc("old_gen_report_while_draining")
+			}
 			tok := c16kAll[r.Intn(len(c16kAll))]
 			switch r.Intn(12) {
 			case 0, 1, 2:
@@ -527,4 +591,206 @@ func TestVerifC16Kernel(t *testing.T) {
 		}
 	}
 	stats.Write("c16k")
+}
+
+// ---- (c) the wiring done by control.NewControlPlane: the region from `// Dial mode.` to the end of the
+// group loop is executed VERBATIM (extracted from the current control_plane.go by checks/c16.py into
+// c16RealWiring) with a real core on the real map: dial-mode parse, disableKernelAliveCallback, the
+// direct/block groups, the pool, per-group override clones, outbound id = position.
+
+func c16wPol(p consts.DialerSelectionPolicy) string {
+	switch p {
+	case consts.DialerSelectionPolicy_MinLastLatency:
+		return "min_last"
+	case consts.DialerSelectionPolicy_MinAverage10Latencies:
+		return "min_avg"
+	case consts.DialerSelectionPolicy_MinMovingAverageLatencies:
+		return "min_moving"
+	case consts.DialerSelectionPolicy_Random:
+		return "random"
+	}
+	return "fixed"
+}
+
+func TestVerifC16Wiring(t *testing.T) {
+	st := VOpenStream("c16w")
+	defer st.Close()
+	stats := NewVStats()
+	core, m := c16kCore(t)
+	if core == nil {
+		st.Emit("nobpf", "nobpf")
+		stats.Inc("nobpf")
+		stats.Write("c16w")
+		return
+	}
+	defer m.Close()
+	r := NewVRand(VSeed() + 1600)
+	log := logrus.New()
+	log.SetOutput(io.Discard)
+	log.SetLevel(logrus.ErrorLevel)
+	nScn := 24
+	if VThorough() {
+		nScn = 160
+	}
+	modes := []string{"ip", "ip", "domain", "domain+", "domain++"}
+	policies := []any{"min", "min_avg10", "min_moving_avg", "random",
+		[]*config_parser.Function{{Name: "fixed", Params: []*config_parser.Param{{Val: "0"}}}}}
+	for sc := 0; sc < nScn; sc++ {
+		c16kFill(m)
+		st.Emit("scenario", "ok")
+		mode := modes[r.Intn(len(modes))]
+		stats.Inc("mode." + mode)
+		names := []string{"a", "b", "c", "d"}[:1+r.Intn(4)]
+		tagToNodeList := map[string][]string{}
+		for i, nm := range names {
+			tagToNodeList[""] = append(tagToNodeList[""], fmt.Sprintf("socks5://127.0.0.1:%d#%s", 2000+i, nm))
+		}
+		var groups []config.Group
+		for gi := 1 + r.Intn(4); gi > 0; gi-- {
+			g := config.Group{Name: fmt.Sprintf("g%d", len(groups)), Policy: policies[r.Intn(len(policies))]}
+			if r.Chance(0.5) { // a filter: some of the names
+				f := &config_parser.Function{Name: "name"}
+				for _, nm := range names {
+					if r.Chance(0.6) {
+						f.Params = append(f.Params, &config_parser.Param{Val: nm})
+					}
+				}
+				if len(f.Params) > 0 {
+					g.Filter = [][]*config_parser.Function{{f}}
+					g.FilterAnnotation = [][]*config_parser.Param{nil}
+				}
+			}
+			if r.Chance(0.3) { // check-option override: the group gets its own clones of the nodes
+				g.TcpCheckUrl = []string{"http://example.invalid/generate_204"}
+				stats.Inc("group.override_clones")
+			}
+			groups = append(groups, g)
+		}
+		global := &config.Global{DialMode: mode, CheckInterval: 30 * time.Second,
+			TcpCheckUrl: []string{"http://cp.cloudflare.com"}, UdpCheckDns: []string{"dns.google:53"}}
+		option := &dialer.GlobalOption{Log: log, CheckInterval: 30 * time.Second}
+		cc, _ := c16kCoreOn(m)
+		res, err := func() (res *c16Wiring, err error) {
+			defer func() {
+				if rec := recover(); rec != nil {
+					err = fmt.Errorf("crash:%v", rec)
+				}
+			}()
+			return c16RealWiring(cc, option, global, tagToNodeList, groups, log)
+		}()
+		if err != nil || res == nil {
+			st.Emit("crash", fmt.Sprintf("crash:wiring region failed: %v", err))
+			continue
+		}
+		// what the documented intent says the wiring must be: outbound id = position, non-init callbacks
+		// write only in dial_mode ip
+		dry := mode != "ip"
+		ids := map[*dialer.Dialer]int{}
+		var nodes []*dialer.Dialer
+		for _, og := range res.Outbounds {
+			for _, d := range og.Dialers {
+				if _, ok := ids[d]; !ok {
+					ids[d] = len(nodes)
+					nodes = append(nodes, d)
+					st.Emit(fmt.Sprintf("quiet node %d 0 |", ids[d]), "SETUP")
+				}
+			}
+		}
+		type wg struct {
+			pol string
+			og  *outbound.DialerGroup
+		}
+		var wgs []wg
+		for k, og := range res.Outbounds {
+			pol := c16wPol(og.GetSelectionPolicy())
+			var ms []string
+			for _, d := range og.Dialers {
+				ms = append(ms, fmt.Sprintf("%d:0", ids[d]))
+			}
+			mstr := "-"
+			if len(ms) > 0 {
+				mstr = strings.Join(ms, ",")
+			}
+			st.Emit(fmt.Sprintf("quiet wire %d 0 %d %s", k, k, c16kBool(dry)), "SETUP")
+			st.Emit(fmt.Sprintf("quiet group %d %d %s 0 %s |", k, k, pol, mstr), "SETUP")
+			wgs = append(wgs, wg{pol, og})
+			stats.Inc("wired." + pol)
+		}
+		state := func() string {
+			var sb strings.Builder
+			sb.WriteString("A[")
+			for i, d := range nodes {
+				if i > 0 {
+					sb.WriteByte(';')
+				}
+				fmt.Fprintf(&sb, "%d:", i)
+				for _, tok := range c16kStd {
+					sb.WriteString(c16kBool(d.MustGetAlive(c16kNT(tok))))
+				}
+			}
+			sb.WriteString("] L[")
+			var kb strings.Builder
+			first := true
+			for k, w := range wgs {
+				if w.pol == "fixed" {
+					continue
+				}
+				for _, tok := range c16kStd {
+					if !first {
+						sb.WriteByte(',')
+					}
+					first = false
+					fmt.Fprint(&sb, w.og.MustGetAliveDialerSet(c16kNT(tok)).Len())
+					var v uint32
+					_ = m.Lookup(outboundConnectivityMapKey(uint8(k), c16kNT(tok)), &v)
+					if v <= 1 {
+						kb.WriteByte(byte('0' + v))
+					} else {
+						kb.WriteByte('?')
+					}
+				}
+			}
+			fmt.Fprintf(&sb, "] K[%s] M[", kb.String())
+			for k := range wgs {
+				if k > 0 {
+					sb.WriteByte(';')
+				}
+				sb.WriteString(c16kSlots(m, k))
+			}
+			sb.WriteString("]")
+			return sb.String()
+		}
+		st.Emit("tick 0", state())
+		for ev := 0; ev < 14 && len(nodes) > 0; ev++ {
+			tok := c16kAll[r.Intn(len(c16kAll))]
+			switch r.Intn(4) {
+			case 0, 1: // kill every member of one group
+				w := wgs[r.Intn(len(wgs))]
+				for _, d := range w.og.Dialers {
+					d.ReportUnavailableForced(c16kNT(tok), nil)
+					st.Emit(fmt.Sprintf("forced %d %s |", ids[d], tok), state())
+				}
+				stats.Inc("killall")
+			case 2:
+				d := nodes[r.Intn(len(nodes))]
+				d.ReportAvailableTraffic(c16kNT(tok))
+				st.Emit(fmt.Sprintf("tok %d %s |", ids[d], tok), state())
+			case 3:
+				d := nodes[r.Intn(len(nodes))]
+				d.ReportUnavailableForced(c16kNT(tok), nil)
+				st.Emit(fmt.Sprintf("forced %d %s |", ids[d], tok), state())
+			}
+			stats.Inc("event")
+		}
+		for _, og := range res.Outbounds {
+			_ = og.Close()
+		}
+		for i := len(res.DeferFuncs) - 1; i >= 0; i-- {
+			_ = res.DeferFuncs[i]()
+		}
+		for _, d := range nodes {
+			_ = d.Close()
+		}
+	}
+	stats.Write("c16w")
 }
